@@ -306,8 +306,10 @@ class CCAccessTokenRequest(Message):
     }
 
     def verify(self, **kwargs):
+        super(CCAccessTokenRequest, self).verify(**kwargs)
         if self["grant_type"] != "client_credentials":
             raise ValueError("Grant type MUST be client_credentials")
+        return True
 
 
 class RefreshAccessTokenRequest(Message):
